@@ -309,11 +309,19 @@ var c20Boundaries = []string{"nil-writer", "nil-image", "nil-image-nil-opts-loss
 
 func init() {
 	registerCases[c20Case]("C20", "exploration",
-		"EncoderOptions: every field at its boundary values (min-1, min, min+1, sentinels, max-1, max, max+1, MinInt, MaxInt; floats: NaN, +-Inf, -0, tiny, 100.0001), all (field,value) pairs across fields (deviation bound 2) x 3 pictures; oracle: no panic, error XOR conformant decodable file.  Plus every documented equivalence (sentinel = explicit default, inert fields) under every single-field context (bound 1), nil = DefaultOptions(), and boundary images (nil arguments, empty/inverted bounds, 16383 / 16384 px, failing writer)",
+		"EncoderOptions: every field at its boundary values (min-1, min, min+1, sentinels, max-1, max, max+1, MinInt, MaxInt; floats: NaN, +-Inf, -0, tiny, 100.0001), all (field,value) pairs across fields (deviation bound 2; thorough: all triples, bound 3, and a fourth picture) x 3 pictures; oracle: no panic, error XOR conformant decodable file.  Plus every documented equivalence (sentinel = explicit default, inert fields) under every single-field context (bound 1), nil = DefaultOptions(), and boundary images (nil arguments, empty/inverted bounds, 16383 / 16384 px, failing writer)",
 		[]string{"worker count pinned to 1, pools never reuse", "validator and independent decoder as in C02"},
-		func(e *fw.Env) int { return 2 },
+		func(e *fw.Env) int {
+			if e.Quick() {
+				return 2
+			}
+			return 3 // thorough: all triples of field deviations
+		},
 		func(e *fw.Env) func(c *choice.Ctx) caseI {
 			images := []c02Img{{1, 1, "flat", "opaque"}, {16, 16, "noise", "agradient"}, {17, 5, "gradient", "opaque"}}
+			if !e.Quick() {
+				images = append(images, c02Img{33, 17, "c4", "binary"})
+			}
 			return func(c *choice.Ctx) caseI {
 				cs := &c20Case{Seed: e.Seed, Dev: map[string]int{}}
 				switch c.PickFree(4, "part") {
